@@ -105,6 +105,7 @@ class Effects:
         self.edges: dict[str, set[tuple]] = {}  # caller -> {(callee qualname, ctor-class qualname | None)}
         self.trans: dict[str, set] = {}
         self.why: dict[tuple, tuple] = {}  # (func, effect) -> (lineno, via callee qualname | None)
+        self.sites: dict[tuple, list] = {}  # (caller, callee) -> [call nodes]
         self._compute()
 
     # -------------------------------------------------------------- direct effects
@@ -124,6 +125,8 @@ class Effects:
                 cur = self.trans[q]
                 for c, ctor_cls in callees:
                     add = self.trans.get(c, set()) - cur
+                    if any(e[0] == "PARAMMUT" for e in add):
+                        add = self._map_parammut(q, c, add) - cur
                     if ctor_cls is not None:
                         add = {e for e in add if not self._fresh_write(e, ctor_cls)}
                     # effects on freshly constructed objects do not escape through constructors? keep all
@@ -132,6 +135,50 @@ class Effects:
                             self.why.setdefault((q, e), (None, c))
                         cur |= add
                         changed = True
+
+    _FRESH_CALLS = ("list", "dict", "set", "deque", "collections.deque", "defaultdict", "collections.defaultdict", "OrderedDict", "bytearray")
+
+    def _map_parammut(self, caller_q: str, callee_q: str, effects: set) -> set:
+        """A callee that mutates its parameter p mutates, in the caller, whatever the caller passes for p: nothing observable
+        when that is a container the caller has just created itself (an accumulator handed down a recursion), the caller's own
+        parameter when it passes one on, and an unknown object otherwise (kept as it is)."""
+        sites = self.sites.get((caller_q, callee_q))
+        callee = self.prog.functions.get(callee_q)
+        caller = self.prog.functions.get(caller_q)
+        if not sites or callee is None or caller is None:
+            return effects
+        out = {e for e in effects if e[0] != "PARAMMUT"}
+        from .core import local_defs
+
+        defs = local_defs(caller)
+        cparams = set(caller.params())
+        for e in effects:
+            if e[0] != "PARAMMUT":
+                continue
+            mapped = set()
+            for call in sites:
+                if call is None:
+                    mapped.add(e)
+                    continue
+                formal = list(callee.params())
+                if callee.cls is not None and formal and isinstance(call.func, ast.Attribute) and not callee.is_static:
+                    formal = formal[1:]
+                arg = None
+                if e[1] in formal and formal.index(e[1]) < len(call.args) and not any(isinstance(a, ast.Starred) for a in call.args):
+                    arg = call.args[formal.index(e[1])]
+                for k in call.keywords:
+                    if k.arg == e[1]:
+                        arg = k.value
+                if isinstance(arg, ast.Name) and arg.id in cparams:
+                    mapped.add(("PARAMMUT", arg.id))
+                elif isinstance(arg, ast.Name) and arg.id in defs and defs[arg.id] and all(isinstance(d, (ast.List, ast.Dict, ast.Set, ast.ListComp, ast.DictComp, ast.SetComp)) or (isinstance(d, ast.Call) and norm(d.func) in self._FRESH_CALLS and not d.args) for d in defs[arg.id]):
+                    continue  # a container created in the caller: its mutation is not observable outside
+                elif isinstance(arg, (ast.List, ast.Dict, ast.Set, ast.ListComp, ast.DictComp, ast.SetComp)):
+                    continue
+                else:
+                    mapped.add(e)
+            out |= mapped
+        return out
 
     def _direct(self, f: FuncInfo):
         eff: set = set()
@@ -143,6 +190,10 @@ class Effects:
             for t in cs.targets:
                 ctor_cls = t.cls.qualname if (cs.kind == "ctor" and t.cls is not None) else None
                 edges.add((t.qualname, ctor_cls))
+                if cs.kind == "call" and isinstance(cs.node, ast.Call):
+                    self.sites.setdefault((f.qualname, t.qualname), []).append(cs.node)
+                else:
+                    self.sites.setdefault((f.qualname, t.qualname), []).append(None)
             if cs.kind in ("call", "ctor") and isinstance(cs.node, ast.Call):
                 call = cs.node
                 if cs.external:
